@@ -36,9 +36,24 @@ def workers_default():
     return w if w > 0 else min(16, os.cpu_count() or 1)
 
 
+def _make_roomy():
+    """CPython 3.12 allocates the frame data stack in chunks and unmaps a chunk as soon as its first frame is
+    popped; a hot loop sitting exactly at a chunk boundary then does mmap+munmap on EVERY call (measured: up to
+    100x slowdown, mostly system time).  Running the worker body below a function with a huge frame makes that
+    frame the long-lived first frame of a fresh large chunk, so everything below it has plenty of room."""
+    K = 8400
+    src = "def roomy(fn, *a):\n    if fn is None:\n        %s = None\n    return fn(*a)\n" % " = ".join("v%d" % i for i in range(K))
+    ns = {}
+    exec(compile(src, "<roomy>", "exec"), ns)
+    return ns["roomy"]
+
+
+roomy = _make_roomy()
+
+
 def _eval(func, c):
     try:
-        return func(c)
+        return roomy(func, c)
     except Exception:
         return ("__harness_error__", traceback.format_exc(), repr(c)[:500])
 
